@@ -325,6 +325,12 @@ class RendererHTML(RendererProtocol):
     ) -> str:
         return escapeHtml(tokens[idx].content)
 
+    def text_special(
+        self, tokens: Sequence[Token], idx: int, options: OptionsDict, env: EnvType
+    ) -> str:
+        # escape/entity placeholders that survive when the ``text_join`` core rule is off
+        return escapeHtml(tokens[idx].content)
+
     def html_block(
         self, tokens: Sequence[Token], idx: int, options: OptionsDict, env: EnvType
     ) -> str:
